@@ -195,6 +195,14 @@ error is decided by the exception machinery, which these one-instruction methods
 Meaning of the intrinsics (each is a one- or two-line method of vm.rs / stack.rs): `pop` = `stack.pop().expect(..)` (panics on an
 empty stack in checked builds; unchecked builds read below the array - C10), `peek(d)` = the d-th value from the top, `push`
 appends (the 16384-slot capacity is not modelled: finding F6), `read_byte`/`read_short` fetch at `ip` (little-endian) and advance. -/
+/-- object.rs `ExcHandler`; code addresses are offsets. -/
+structure Handler where
+  catch_ip : Int
+  finally_ip : Int
+  init_stack_size : Int
+  frame_count : Int
+deriving Repr, DecidableEq
+
 structure Vm where
   stack : List Value
   ip : Int
@@ -203,6 +211,19 @@ structure Vm where
   slotBase : Int
   raised : List Err
   handled : Except Err Unit
+  /-- `fiber.exc_handlers` in Rust's order: the innermost handler is the LAST element -/
+  handlers : List Handler := []
+  /-- `fiber.frames.len()` -/
+  frames : Int := 1
+  /-- the `ip` field of the current call frame (what `load_frame` loads) -/
+  frameIp : Int := 0
+  returnIp : Option Int := none
+  returnValue : Value := .None
+  /-- `Vm::handling_exception` -/
+  handling : Bool := false
+  errorIp : Option (Int × Int) := none
+  /-- every `close_upvalues(index)` so far, with the height of the value stack at that moment -/
+  closed : List (Int × Int) := []
 deriving Repr
 
 def Vm.pop (vm : Vm) : M (Value × Vm) :=
@@ -237,6 +258,29 @@ def Vm.readShort (vm : Vm) : M (BitVec 16 × Vm) :=
   M.bind (idx vm.code vm.ip) fun lo =>
   M.bind (idx vm.code (vm.ip + 1)) fun hi =>
   .ok ((hi.setWidth 16 <<< 8) ||| lo.setWidth 16, { vm with ip := vm.ip + 2 })
+
+def Vm.popHandler (vm : Vm) : M (Option Handler × Vm) :=
+  .ok (vm.handlers.getLast?, { vm with handlers := vm.handlers.dropLast })
+
+def Vm.takeReturnIp (vm : Vm) : M (Option Int × Vm) := .ok (vm.returnIp, { vm with returnIp := none })
+
+/-- `stack.truncate(n)`: beyond the current height the checked and the unchecked builds differ (stack.rs), so that is a panic here. -/
+def Vm.truncateStack (vm : Vm) (n : Int) : M Vm :=
+  if n < 0 then .panic else if n.toNat ≤ vm.stack.length then .ok { vm with stack := vm.stack.take n.toNat } else .panic
+
+/-- `frames.truncate(n)` (`Vec::truncate`: no effect when there are fewer) -/
+def Vm.truncateFrames (vm : Vm) (n : Int) : Vm := { vm with frames := min vm.frames n }
+
+def Vm.closeUpvalues (vm : Vm) (index : Int) : Vm := { vm with closed := vm.closed ++ [(index, (vm.stack.length : Int))] }
+
+/-- `current_frame_mut().unwrap().ip = x` -/
+def Vm.setFrameIp (vm : Vm) (x : Int) : M Vm := if vm.frames ≤ 0 then .panic else .ok { vm with frameIp := x }
+
+/-- `load_frame()`: the instruction pointer saved in the current frame becomes the running one (chunk and module follow it) -/
+def Vm.loadFrame (vm : Vm) : M Vm := if vm.frames ≤ 0 then .panic else .ok { vm with ip := vm.frameIp }
+
+/-- `new_error_from_value(v)`: the run-ending error made from an uncaught value (its content is C17's subject) -/
+def errorFromValue (v : Value) : Err := ⟨"uncaught", "", [reprStr v]⟩
 
 /-- `try_handle_error(err)`: the error is handed to the exception machinery; what it answers is part of the state. -/
 def Vm.raise (vm : Vm) (e : Err) : M (Except Err Unit × Vm) :=
